@@ -1,5 +1,6 @@
 import MxModel.Proofs.ExecEdits
 import MxModel.Proofs.ExecCertOps
+import MxModel.Proofs.ExecObj
 import MxModel.Proofs.ExprRanked
 import MxModel.Exec.Expr
 /-!
@@ -370,6 +371,87 @@ theorem graph_acyclic_edits (lt : Node → Node → Prop) (ho : StrictOrder lt) 
   rcases h with ⟨m, hm, hlt⟩ | ⟨c, hc⟩
   · cases hm; exact ho.irrefl _ hlt
   · cases hc
+
+/-! ### object nodes
+
+The key-less node `(cells,)` stands for an uncached cells.  It is legitimate only while the cells
+IS uncached: switching the flag on must remove it together with everything calculated through
+the cells (`clear_obj`).  No hypothesis on the programs beyond `Ranked` (which gives `GI`, needed
+for the closure facts of the clearing routines). -/
+
+theorem estep_obj (lt : Node → Node → Prop) (st : Env × St) (op : EOp)
+    (g : GI st.1 lt st.2) (hi : Idle st.2) (hobj : ObjOK st.1 st.2) :
+    ObjOK (estep st op).1 (estep st op).2 := by
+  obtain ⟨env, s⟩ := st
+  have clrSub : ∀ {s' : St} {R : List GNode} {D : RefId × Node → Prop}, Clr s R D s' → ObjGrow env s s' :=
+    fun hc => ObjGrow.of_sub (fun x hx => ((hc.mem_gn x).mp hx).1)
+  cases op with
+  | eval n => exact hobj.grow (evalTop_obj n s)
+  | set n v =>
+    simp only [estep]
+    split
+    · obtain ⟨R, hc, _⟩ := clr_clearValueAt s (fun _ => False) g.edgeOK n true
+      refine hobj.grow ?_
+      unfold St.setValue
+      split
+      · exact ObjGrow.refl s
+      · simp only []
+        refine (clrSub hc).trans ?_
+        have h1 : ObjGrow env (s.clearValueAt n true)
+            { s.clearValueAt n true with data := insert (s.clearValueAt n true).data n v } := ObjGrow.of_gn rfl
+        refine h1.trans ((objGrow_addNode_elem _ n).trans (ObjGrow.of_gn rfl))
+    · exact hobj
+  | clearAt n =>
+    obtain ⟨R, hc, _⟩ := clr_clearValueAt s (fun _ => False) g.edgeOK n true
+    exact hobj.grow (clrSub hc)
+  | clear c =>
+    obtain ⟨R, hc, _⟩ := clr_clearAllValues s (fun _ => False) g.edgeOK c false
+    exact hobj.grow (clrSub hc)
+  | clearAll c =>
+    obtain ⟨R, hc, _⟩ := clr_clearAllValues s (fun _ => False) g.edgeOK c true
+    exact hobj.grow (clrSub hc)
+  | setRef r v =>
+    obtain ⟨R, D, hc, _, _⟩ := clr_setRef env s g.edgeOK r
+    exact hobj.grow (clrSub hc)
+  | delRef r =>
+    simp only [estep]
+    split
+    · obtain ⟨R, hc, _⟩ := clr_delRef env s g.edgeOK r
+      exact hobj.grow (clrSub hc)
+    · exact hobj
+  | setFormula c f =>
+    simp only [estep, St.setFormula]
+    obtain ⟨R, hc, _, _⟩ := clr_clearObj s (fun _ => False) g.edgeOK c
+    exact hobj.grow (clrSub hc)
+  | setCached c b =>
+    simp only [estep]
+    split
+    · exact hobj
+    · simp only [St.setFormula]
+      obtain ⟨R, hc, _, hgone⟩ := clr_clearObj s (fun _ => False) g.edgeOK c
+      intro c' hc'
+      obtain ⟨h1, h2⟩ := (hc.mem_gn _).mp hc'
+      have hne : c' ≠ c := fun h => h2 (h ▸ hgone (h ▸ h1))
+      simp only [withCached, hne, if_false]
+      exact hobj c' h1
+
+/-- **An object node is in the graph only for a cells that is uncached NOW** – in every state
+reachable by evaluations, failed evaluations, value edits, reference edits, formula edits and
+switches of `is_cached` in either direction.  With `graph_nodes_eq_held_edits`: the nodes of the
+graph are exactly the held elements (all of cached cells) and object nodes of uncached cells. -/
+theorem object_nodes_only_for_uncached (lt : Node → Node → Prop) (ho : StrictOrder lt) (env0 : Env)
+    (hr0 : Ranked env0 lt) (ops : List EOp) (hadm : StaysRanked lt (env0, {}) ops) (c : CellId)
+    (h : GNode.obj c ∈ (erun (env0, {}) ops).2.gn) : (erun (env0, {}) ops).1.cached c = false := by
+  suffices ∀ (ops : List EOp) (st : Env × St), Ranked st.1 lt → GI st.1 lt st.2 → Idle st.2 →
+      ObjOK st.1 st.2 → StaysRanked lt st ops → ObjOK (erun st ops).1 (erun st ops).2 from
+    this ops (env0, {}) hr0 (empty_GI env0 lt) ⟨rfl, rfl⟩ (by intro c hc; simp at hc) hadm c h
+  intro ops
+  induction ops with
+  | nil => intro st _ _ _ hobj _; exact hobj
+  | cons op rest ih =>
+    intro st hr g hi hobj hadm
+    obtain ⟨g', hi'⟩ := estep_inv lt ho st op hr g hi
+    exact ih (estep st op) hadm.1 g' hi' (estep_obj lt st op g hi hobj) hadm.2
 
 /-! Non-vacuity (the history of the seeded change C08-mutD): `top` (c2) is calculated through the
 uncached `mid` (c1) over `base` (c0); then caching is switched ON for `mid`.  The object node of
